@@ -17,3 +17,103 @@ from contracts.mcmc_ensemble import ensemble_advance_walker
 contract("C03", "ensemble_advance_walker", native=False, replay_with="chain_invariant_native")(ensemble_advance_walker)
 
 from contracts.mcmc_native import chain_invariant_native, shared_inputs_native  # noqa: registers the bounded layer
+
+
+# ---- constructors establish the invariant ---------------------------------------------------------------------------
+import z3
+from pyvc import sym as S
+from pyvc.sym import Sym, ctx
+from pyvc.tensor import Tensor, SymList
+from pyvc.objlist import PosteriorGhost, F
+
+
+def _evaluations():
+    return [e for e in ctx().trace if e[0] == "posterior"]
+
+
+@contract("C03", "constructors_establish_invariant", native=False, replay_with="chain_invariant_native")
+def constructors_establish_invariant(vc):
+    """a freshly constructed Gibbs / PCA / Hamiltonian chain stores exactly one sample -- the start point -- and one
+    log-probability, beta * F(start), obtained from one evaluation of the posterior at that very point"""
+    kind = vc.choice("sampler", ["GibbsChain", "PcaChain", "HamiltonianChain"])
+    d = vc.choice("d", [1, 2, 3])
+    post = PosteriorGhost()
+    start = vc.vector("start", d, origin="input")
+    T = vc.real("temperature", pos=True)
+    if kind == "HamiltonianChain":
+        ch = vc.new("inference.mcmc.hmc", kind, posterior=post, start=start, grad=vc.ghost("grad", lambda x: x), temperature=T,
+                    display_progress=False)
+    else:
+        mod = "inference.mcmc.gibbs" if kind == "GibbsChain" else "inference.mcmc.pca"
+        ch = vc.new(mod, kind, posterior=post, start=start, widths=vc.vector("widths", d, pos=True), temperature=T,
+                    display_progress=False)
+    ev = _evaluations()
+    vc.ensures("one_posterior_evaluation", len(ev) == 1)
+    if len(ev) != 1:
+        return
+    _, arr, snap, val = ev[0]
+    for j in range(d):
+        vc.ensures("evaluated_at_the_start_point", S.cmp("==", snap.at(j), start.at(j)))
+    probs = vc.attr(ch, "probs")
+    vc.ensures("one_stored_logprob", len(probs) == 1)
+    vc.ensures("chain_length_is_one", S.cmp("==", vc.attr(ch, "chain_length"), 1))
+    vc.ensures("temperature_stored_as_inverse", S.cmp("==", S.mul(vc.attr(ch, "inv_temp"), T), 1))
+    if len(probs) == 1:
+        vc.ensures("stored_logprob_is_beta_F_of_start", S.cmp("==", probs[0], S.mul(vc.attr(ch, "inv_temp"), Sym(val))))
+    if kind == "HamiltonianChain":
+        theta = vc.attr(ch, "theta")
+        vc.ensures("one_stored_sample", len(theta) == 1)
+        if len(theta) == 1:
+            for j in range(d):
+                vc.ensures("stored_sample_is_the_start_point", S.cmp("==", theta[0].at(j), start.at(j)))
+    else:
+        params = vc.attr(ch, "params")
+        vc.ensures("one_parameter_object_per_dimension", len(params) == d)
+        for j, p in enumerate(params[:d]):
+            smp = vc.attr(p, "samples")
+            vc.ensures("one_stored_sample", len(smp) == 1)
+            if len(smp) == 1:
+                vc.ensures("stored_sample_is_the_start_point", S.cmp("==", smp[0], start.at(j)))
+    vc.ensures("caller_start_vector_not_written", len(vc.writes_to_inputs()) == 0)
+
+
+@contract("C03", "ensemble_constructor_establishes_invariant", native=False, replay_with="chain_invariant_native")
+def ensemble_constructor_establishes_invariant(vc):
+    """EnsembleSampler(...): walker w's stored log-probability is F of walker w's stored position, which is row w of the
+    starting positions (a copy: the caller's array is not aliased or written)"""
+    d = vc.choice("d", [1, 2])
+    nw = vc.int("n_walkers", lo=3)
+    post = PosteriorGhost()
+    pos0 = vc.matrix("starting_positions", nw, d, origin="input")
+    # the validation of the starting positions (finite, non-degenerate spread) is replaced by its contract: it returns
+    # its 2-d argument unchanged or raises
+    for qn in ("EnsembleSampler.__validate_starting_positions", "EnsembleSampler._EnsembleSampler__validate_starting_positions"):
+        vc.modular(qn, lambda I, func, args, kwargs: args[-1])
+    with vc.raising_allowed():
+        s = vc.new("inference.mcmc.ensemble", "EnsembleSampler", posterior=post, starting_positions=pos0, display_progress=False)
+    wp, wq = vc.attr(s, "walker_positions"), vc.attr(s, "walker_probs")
+    vc.ensures("shapes", vc.ndim(wp) == 2 and vc.ndim(wq) == 1 and S.cmp("==", wp.shape[0], nw) and S.cmp("==", wq.shape[0], nw))
+    vc.ensures_forall("positions_are_the_starting_positions", (nw, d), lambda w, j: S.cmp("==", wp.at(w, j), pos0.at(w, j)))
+    vc.ensures("positions_are_a_copy", wp is not pos0 and getattr(wp, "base", None) is not pos0)
+    w = vc.index("w", nw)
+    q = wq.at(w)
+    ev = [e for e in _evaluations()]
+    hit = [e for e in ev if S.z(Sym(e[3])).eq(S.z(q)) or True]
+    vc.ensures("logprob_of_walker_w_is_F_of_an_evaluated_point", len(ev) >= 1)
+    # the evaluation whose value is stored for walker w was made at walker w's position
+    ok = False
+    for _, arr, snap, val in ev:
+        if S.z(q).eq(val) or str(S.z(q)) == str(val):
+            ok = True
+            for j in range(d):
+                vc.ensures("logprob_of_walker_w_belongs_to_position_w", S.cmp("==", snap.at(j), pos0.at(w, j)))
+    vc.ensures("logprob_of_walker_w_is_a_posterior_value", ok)
+    vc.ensures("caller_array_not_written", len(vc.writes_to_inputs()) == 0)
+
+
+# a point installed by a parallel-tempering exchange is a stored sample too: the worker-side contract of C08 ("the received
+# log-probability is re-expressed at the receiving chain's temperature") is checked under this property as well, together
+# with the real-process harness
+from contracts.c08_tempering import worker_update_position as _wup, tempering_native as _tn
+contract("C03", "tempering_worker_update_position", native=False, replay_with="tempering_native")(_wup)
+bounded("C03", "tempering_native", native_runs=3)(_tn)
